@@ -17,14 +17,16 @@ LEVEL = "fault_enumeration"
 RULE = ("Hypothesis draws a hive dataset shape (with/without partitions, 1-3 existing part files) and an append producing 1-m new "
         "part files (through write(append=True) or write_row_groups). A dry run through the fault-injecting open_with/mkdirs "
         "layer numbers every filesystem event (open-for-write, write, close, mkdir); then EVERY event k before the first "
-        "open-for-write of _metadata is failed once as 'raise instead' and every write event once more as 'partial write then "
-        "raise', each on a fresh copy of the dataset (exhaustive per shape). Oracle: if the append reported failure a fresh "
+        "open-for-write of _metadata is failed once as 'raise instead' (opens for reading are events too), every write event once more "
+        "as 'partial write then raise' and once as 'this and every later write fails' (a full disk), every close once more as 'the "
+        "close fails and what was written since the open is lost' (a store that uploads on close), each on a fresh copy of the "
+        "dataset (exhaustive per shape); the dataset's history may hold a removed row group or row groups re-ordered by a sort key. Oracle: if the append reported failure a fresh "
         "ParquetFile(dir) reads exactly the previous content and satisfies the metadata/directory agreement for referenced "
         "files; if it returned normally a fresh open sees exactly old+new; no event ever opens a pre-existing data file for "
         "writing. Non-trivial execution: the fault hits after >= 1 new part file was completely written. Distinct = (shape, k, mode).")
 ASSUMPTIONS = [
     "faults are injected at the open_with/mkdirs boundary the API offers; failures inside a lower layer (e.g. fsync) are out of scope",
-    "a failed close() still leaves the bytes already written on disk",
+    "a failed close() leaves the bytes already written on disk in the 'raise' flavour and loses them in the 'lost' flavour",
     "unreferenced part files left behind by the failed attempt are allowed (the property speaks of content)",
 ]
 MANIFEST = {
